@@ -76,16 +76,51 @@ inductive Api where
   | attrS | define | makeClass
   deriving DecidableEq, Repr, FromJson, ToJson, Inhabited
 
-/-- field transformers used by the harness, by what they do to the attribute list -/
-inductive Tr where
+/-- an edit of a Boolean property of an attribute (`a.evolve(kw_only=…)`, `…(init=…)`,
+    `…(default=0 / NOTHING)`): leave it, set it, clear it -/
+inductive BEdit where
+  | keep | setT | setF
+  deriving DecidableEq, Repr, FromJson, ToJson, Inhabited
+
+/-- an edit of the field-level on_setattr: leave it, `evolve(on_setattr=None)`, `evolve(on_setattr=hook)` -/
+inductive HEdit where
+  | keep | strip | setHook
+  deriving DecidableEq, Repr, FromJson, ToJson, Inhabited
+
+/-- what a transformer does to one attribute -/
+structure AttrEdit where
+  kwOnly : BEdit
+  dflt : BEdit
+  init : BEdit
+  hooks : HEdit
+  deriving DecidableEq, Repr, FromJson, ToJson, Inhabited
+
+/-- what a transformer does to the list as a whole (after the per-attribute edits) -/
+inductive Shape where
   | none
   | reverse          -- reversed(attrs)
   | dropFirst        -- attrs[1:]
-  | kwOnlyAll        -- a.evolve(kw_only=True) for all
-  | addMandatory     -- attrs + [new mandatory positional Attribute "zz"]
+  | dropLast         -- attrs[:-1]
   | mandatoryFirst   -- stable sort: mandatory before defaulted
-  | stripHooks       -- a.evolve(on_setattr=None) for all
-  | setDefaults      -- a.evolve(default=0) for all
+  deriving DecidableEq, Repr, FromJson, ToJson, Inhabited
+
+/-- a new `Attribute` "zz" the transformer adds -/
+inductive Add where
+  | none
+  | mandatoryLast    -- attrs + [mandatory positional]
+  | defaultedFirst   -- [defaulted positional] + attrs
+  | kwMandatoryLast  -- attrs + [mandatory keyword-only]
+  deriving DecidableEq, Repr, FromJson, ToJson, Inhabited
+
+/-- A field transformer, by what it returns for the list it is given: every attribute edited by `all`, the
+    leading `nFirst` ones then also by `first`, the list reshaped, an attribute added.  (The harness builds the
+    real callable from the same description.) -/
+structure Tr where
+  shape : Shape
+  all : AttrEdit
+  first : AttrEdit
+  nFirst : Nat
+  add : Add
   deriving DecidableEq, Repr, FromJson, ToJson, Inhabited
 
 /-- One attribute definition as written in the class body (or in `these=` / the `make_class` dict). -/
@@ -299,15 +334,49 @@ def addedAttr : Attr :=
   { name := "zz", dflt := false, init := true, kwOnly := false, onSetattr := .none,
     validator := false, converter := false }
 
-def applyTr : Tr → List Attr → List Attr
+def BEdit.ap : BEdit → Bool → Bool
+  | .keep, b => b
+  | .setT, _ => true
+  | .setF, _ => false
+
+def HEdit.ap : HEdit → FHook → FHook
+  | .keep, h => h
+  | .strip, _ => .none
+  | .setHook, _ => .hook
+
+def AttrEdit.ap (e : AttrEdit) (a : Attr) : Attr :=
+  { a with kwOnly := e.kwOnly.ap a.kwOnly, dflt := e.dflt.ap a.dflt, init := e.init.ap a.init,
+           onSetattr := e.hooks.ap a.onSetattr }
+
+def AttrEdit.id : AttrEdit := { kwOnly := .keep, dflt := .keep, init := .keep, hooks := .keep }
+
+/-- edit the leading `n` attributes -/
+def editFirst (e : AttrEdit) : Nat → List Attr → List Attr
+  | 0, l => l
+  | _, [] => []
+  | n + 1, a :: rest => e.ap a :: editFirst e n rest
+
+def Shape.ap : Shape → List Attr → List Attr
   | .none, l => l
   | .reverse, l => l.reverse
   | .dropFirst, l => l.drop 1
-  | .kwOnlyAll, l => l.map (fun a => { a with kwOnly := true })
-  | .addMandatory, l => l ++ [addedAttr]
+  | .dropLast, l => l.dropLast
   | .mandatoryFirst, l => l.filter (fun a => !a.dflt) ++ l.filter (·.dflt)
-  | .stripHooks, l => l.map (fun a => { a with onSetattr := .none })
-  | .setDefaults, l => l.map (fun a => { a with dflt := true })
+
+def Add.ap : Add → List Attr → List Attr
+  | .none, l => l
+  | .mandatoryLast, l => l ++ [addedAttr]
+  | .defaultedFirst, l => { addedAttr with dflt := true } :: l
+  | .kwMandatoryLast, l => l ++ [{ addedAttr with kwOnly := true }]
+
+/-- what the transformer returns: the later checks are made on THIS list -/
+def applyTr (t : Tr) (l : List Attr) : List Attr :=
+  t.add.ap (t.shape.ap (editFirst t.first t.nFirst (l.map t.all.ap)))
+
+/-- no transformer (or one that returns what it was given) -/
+def Tr.id : Tr := { shape := .none, all := AttrEdit.id, first := AttrEdit.id, nFirst := 0, add := .none }
+
+def Tr.ofShape (s : Shape) : Tr := { Tr.id with shape := s }
 
 def kwAll (on : Bool) (l : List Attr) : List Attr :=
   if on then l.map (fun a => { a with kwOnly := true }) else l
